@@ -1,28 +1,51 @@
 import RedisVerif.Driver.Codec
 import RedisVerif.Model.GrammarTable
 import RedisVerif.Model.LuaConv
+import RedisVerif.Model.LuaScript
+import RedisVerif.Model.GrammarGen
+import RedisVerif.Model.GrammarElem
+import RedisVerif.Lemmas.GrammarErrs
 import RedisVerif.Props.C16
 
 /-
   C16 sub-driver (pure).  One line in, one line out:
     P  <hex-arg>*     → canonical rendering of `parseCmd` (from_resp):           OK <Ctor> <tok>* | ERR <hex text> | crash
     Z  <hex-arg>*     → the same for the zero-copy parser (`parseCmdZc`)
+    PE <elem>*        → both RESP parsers on an array of arbitrary elements (`parseE`): elem = x<hex> (bulk string) |
+                        :<int> (integer) | ~ (nil bulk, simple string, error, nested array)
     LP <hex-arg>*     → the redis.call translator (`parseLua`):                  OK | ERR <hex text> | crash
     UP <hex>          → `String::from_utf8_lossy(b).to_uppercase()` as hex
     LO <hex>          → `.to_lowercase()` of the upper-cased lossy string
     F  <hex>          → `str::parse::<f64>`: f<16 hex digits> | fnan | none
+    I  <hex>          → `str::parse::<i64>`: i<value> | none
+    U64 <hex> / U32 <hex> → `str::parse::<u64 / u32>`: n<value> | empty | invalid | overflow
     R2L <resp>        → `resp_to_lua_value`, rendered as a Lua value
     L2R <lua>         → `lua_to_resp`, rendered as a RESP value
     RT <resp>         → `lua_to_resp (resp_to_lua_value r)`
+    N2I <16 hex digits> → `lua_to_resp` of a Lua float with this bit pattern (`n as i64`): :<int>
     LA <lua>          → the bytes a redis.call argument becomes (`parse_multivalue_to_bytes`): $<hex> | refused
     TN                → the command names of `table`, sorted (compared with the match arms of the source)
     LT <i>            → row i of the translator's error alphabet `C16.luaErrTable` (name, arity text,
                         error literals, prefixes of formatted errors) | end
+    SC <n> <hex-arg>*n <k> {c|p} <m> <aexpr>*m … R <ret> D <d>*k
+                      → `execute_lua_script` on a script of k call statements: the EVAL frame (its KEYS / ARGV reach
+                        the script through `parseCmd` + `envOfEval`), the statements (c = redis.call, p = redis.pcall;
+                        aexpr = K<i> | A<i> | R<i> (the result of statement i) | <lua>), the return expression (r<i> | T<n> e1 … en | L <lua>) and, per
+                        statement, the reply the CLIENT path gave for the same words (`-` = none): the executor is a
+                        parameter of the model, here it replays these replies.
+                        completed=<statements completed> reply=<resp> | crash
+    SH {R|L} <i>      → row i of the shape table of `table` (R: both RESP parsers) / `luaTable` (L): name, arity rule,
+                        arity text, constructors, slot kinds, optional slots, tail, option table, unknown-word
+                        policy, literals of the finishing function | end
+    FA <i>            → family i of `table`: name and the text of a missing sub-command | end
+    HL <i>            → extract helper i of the RESP parsers as the slot kinds model it: name, parsed type, the text of
+                        a parse failure (`std` = the text of Rust's ParseIntError) | end
+    DF                → what a command name without a table entry answers: RESP parsers / translator
   RESP values (prefix notation):  +<hex>  -<hex>  :<int>  $<hex>  $-  *-  *<n> v1 … vn
   Lua values:                     nil true false i<int> n<int> s<hex> ok<hex> err<hex> t<n> v1 … vn
 -/
 namespace RedisVerif.Driver.C16
-open RedisVerif RedisVerif.Driver RedisVerif.Grammar RedisVerif.LuaConv
+open RedisVerif RedisVerif.Driver RedisVerif.Grammar RedisVerif.LuaConv RedisVerif.LuaScript
 
 def strOf (b : List Nat) : String := String.ofList (b.map Char.ofNat)
 
@@ -126,6 +149,208 @@ partial def showLua : LuaVal → String
   | .other => "other"
 end
 
+/-! ### shape rows -/
+
+def showKind : ArgKind → String
+  | .str => "str" | .sds => "sds" | .int => "int" | .u64 => "u64" | .flt => "flt" | .usz => "usz" | .kw => "kw" | .u32 => "u32"
+
+def showArg (a : Arg) : String :=
+  match a.onErr with
+  | none => showKind a.kind
+  | some l => showKind a.kind ++ "!" ++ hexOfBytes l.text
+
+def showArgs (l : List Arg) : String := if l.isEmpty then "-" else ",".intercalate (l.map showArg)
+
+def showArity : Arity → String
+  | .any => "any"
+  | .exact n => s!"eq{n}"
+  | .atLeast n => s!"ge{n}"
+  | .between lo hi => s!"in{lo}-{hi}"
+  | .evenAtLeast n => s!"even-ge{n}"
+  | .oddAtLeast n => s!"odd-ge{n}"
+
+def showMissing : Missing → String
+  | .err l => "m=" ++ hexOfBytes l.text
+  | .crash => "m=crash"
+  | .ignore => "m=ignore"
+
+def showOpt (o : OptSpec) : String :=
+  strOf o.kw ++ ":" ++ showArgs o.vals ++ ":" ++ (if o.vals.isEmpty then "m=-" else showMissing o.missing) ++
+    (match o.reject with
+     | some f => ":r=" ++ hexOfBytes f.pre
+     | none => "")
+
+def showUnk : Unk → String
+  | .lit l => "lit:" ++ hexOfBytes l.text
+  | .fmt f => "fmt:" ++ hexOfBytes f.pre
+
+def sortStrs (l : List String) : List String := (l.toArray.qsort (· < ·)).toList
+
+def showTail : Tail → String
+  | .none => "tail=none opts=- unk=-"
+  | .ignore => "tail=ignore opts=- unk=-"
+  | .many a => s!"tail=many:{showArg a} opts=- unk=-"
+  | .pairs a b => s!"tail=pairs:{showArg a}:{showArg b} opts=- unk=-"
+  | .scan tbl unk => "tail=scan opts=" ++ "|".intercalate (sortStrs (tbl.map showOpt)) ++ " unk=" ++ showUnk unk
+  | .flagsPairs fl odd a b =>
+    "tail=flags:" ++ showArg a ++ ":" ++ showArg b ++ ":" ++ hexOfBytes odd.text ++
+      " opts=" ++ "|".intercalate (sortStrs (fl.map (fun f => strOf f ++ ":-:m=-"))) ++ " unk=break"
+  | .raw => "tail=raw opts=- unk=-"
+
+def showCond (tbl : List OptSpec) : Cond → String
+  | .has i => match tbl[i]? with
+    | some o => strOf o.kw
+    | none => s!"?{i}"
+  | .and a b => "(" ++ showCond tbl a ++ "&&" ++ showCond tbl b ++ ")"
+  | .or a b => "(" ++ showCond tbl a ++ "||" ++ showCond tbl b ++ ")"
+  | .countGt is n => "count(" ++ ",".intercalate (is.map fun i => match tbl[i]? with | some o => strOf o.kw | none => s!"?{i}") ++ s!")>{n}"
+
+def showChecks (d : GenDesc) : String :=
+  let tbl := match d.tail with
+    | .scan t _ => t
+    | _ => []
+  if d.checks.isEmpty then "-" else "|".intercalate (d.checks.map fun c => showCond tbl c.1 ++ ":" ++ hexOfBytes c.2.text)
+
+def showRow (r : ShapeRow) : String :=
+  s!"name={strOf r.name} arity={showArity r.arity} aerr={hexOfBytes r.arityErr} " ++
+  s!"ctor={"|".intercalate (sortStrs (r.gen.ctors.map strOf))} slots={showArgs r.gen.pre} opt={showArgs r.gen.opt} " ++
+  showTail r.gen.tail ++
+  " flits=" ++ (if r.gen.finLits.isEmpty then "-" else ";".intercalate (sortStrs (r.gen.finLits.map (fun l => hexOfBytes l.text)))) ++
+  " checks=" ++ showChecks r.gen
+
+/-! ### scripts -/
+
+def aexprP (fuel : Nat) : P AExpr := do
+  match (← get) with
+  | [] => failure
+  | t :: ts =>
+    match t.toList with
+    | 'K' :: cs => match (String.ofList cs).toNat? with
+      | some i => do set ts; pure (.key i)
+      | none => failure
+    | 'A' :: cs => match (String.ofList cs).toNat? with
+      | some i => do set ts; pure (.argv i)
+      | none => failure
+    | 'R' :: cs => match (String.ofList cs).toNat? with
+      | some i => do set ts; pure (.res i)
+      | none => failure
+    | _ => do
+      let v ← luaP fuel
+      pure (.lit v)
+
+def callP (fuel : Nat) : P Call := do
+  let f ← tok
+  let prot ← (match f with
+    | "c" => pure false
+    | "p" => pure true
+    | _ => failure : P Bool)
+  let m ← nat
+  let args ← repeatP m (aexprP fuel)
+  pure ⟨prot, args⟩
+
+def retP : Nat → P Ret
+  | 0 => failure
+  | fuel + 1 => do
+    let t ← tok
+    match t.toList with
+    | 'r' :: cs => match (String.ofList cs).toNat? with
+      | some i => pure (.res i)
+      | none => failure
+    | 'T' :: cs => match (String.ofList cs).toNat? with
+      | some n => do
+        let xs ← repeatP n (retP fuel)
+        pure (.tbl xs)
+      | none => failure
+    | ['L'] => do
+      let v ← luaP fuel
+      pure (.lit v)
+    | _ => failure
+
+def optRespP (fuel : Nat) : P (Option Resp) := do
+  match (← get) with
+  | "-" :: ts => do set ts; pure none
+  | _ => do
+    let r ← respP fuel
+    pure (some r)
+
+structure ScriptOp where
+  frame : List (List Nat)
+  script : Script
+  direct : List (Option Resp)
+
+def scriptOpP (fuel : Nat) : P ScriptOp := do
+  let n ← nat
+  let frame ← repeatP n bytesTok
+  let k ← nat
+  let calls ← repeatP k (callP fuel)
+  let r ← tok
+  if r != "R" then failure
+  let ret ← retP fuel
+  let d ← tok
+  if d != "D" then failure
+  let ds ← repeatP k (optRespP fuel)
+  pure ⟨frame, ⟨calls, ret⟩, ds⟩
+
+/-- the executor of the `SC` op: it answers the replies the client path gave, in order -/
+def replayExec (ds : List Resp) (_ : Cmd) : List Resp × Resp :=
+  match ds with
+  | d :: t => (t, d)
+  | [] => ([], .error (s2b "missing-direct-reply"))
+
+/-- the replies the model's run will ask for: one per statement whose words (evaluated with the results so far)
+    the translator accepts, up to the statement that ends the script -/
+def alignReplies (env : Env) : List LuaVal → List Call → List (Option Resp) → List Resp
+  | acc, c :: cs, d :: ds =>
+    let r := d.getD (.error (s2b "missing-direct-reply"))
+    let consumed := match c.words env acc with
+      | some (w :: ws) => (parseLua (w :: ws)).isOk
+      | _ => false
+    let here := if consumed then [r] else []
+    match doCall (fun (u : Unit) (_ : Cmd) => (u, r)) () c.prot (c.args.map (AExpr.eval env acc)) with
+    | .value _ v => here ++ alignReplies env (acc ++ [v]) cs ds
+    | .raise _ _ => here
+    | .crash => []
+  | _, _, _ => []
+
+def runScriptOp (o : ScriptOp) : String :=
+  match parseCmd o.frame with
+  | .ok c =>
+    match envOfEval c with
+    | some env =>
+      let ds := alignReplies env [] o.script.calls o.direct
+      let r := runCalls replayExec env ds o.script.calls
+      match (evalScript replayExec env ds o.script).2 with
+      | some reply => s!"completed={r.results.length} reply={showResp reply}"
+      | none => "crash"
+    | none => "not-an-eval"
+  | .error e => "frame-rejected " ++ showErr e
+
+def showUnsigned : Except IntErr Nat → String
+  | .ok n => s!"n{n}"
+  | .error .empty => "empty"
+  | .error .invalid => "invalid"
+  | .error .overflow => "overflow"
+
+/-- the extract helpers of the RESP parsers and the slot kind that models each -/
+def helperRows : List (String × ArgKind × String) :=
+  [ ("extract_string", .str, "-"), ("extract_sds", .sds, "-"), ("extract_integer", .int, "int64"),
+    ("extract_float", .flt, "f64"), ("extract_i64", .int, "int64"), ("extract_u64", .u64, "u64") ]
+
+def showHelper (r : String × ArgKind × String) : String :=
+  let errs := argErrs ⟨r.2.1, none⟩
+  let perr := match errs with
+    | [] => "-"
+    | [l] => hexOfBytes l.text
+    | _ => "std"
+  s!"name={r.1} ty={r.2.2} perr={perr}"
+
+def elemArgs (ts : List String) : Option (List Elem) :=
+  ts.mapM (fun t => match t.toList with
+    | 'x' :: cs => (parseHexBytes cs).map Elem.bulk
+    | ':' :: cs => (String.ofList cs).toInt?.map Elem.int
+    | ['~'] => some Elem.other
+    | _ => none)
+
 def step (line : String) : String :=
   match tokens line with
   | "P" :: ts => match hexArgs ts with
@@ -133,6 +358,9 @@ def step (line : String) : String :=
     | none => "bad-op"
   | "Z" :: ts => match hexArgs ts with
     | some args => showRes (parseCmdZc args)
+    | none => "bad-op"
+  | "PE" :: ts => match elemArgs ts with
+    | some args => showRes (parseE args)
     | none => "bad-op"
   | "LP" :: ts => match hexArgs ts with
     | some args => showAccept (parseLua args)
@@ -148,6 +376,17 @@ def step (line : String) : String :=
       | some bits => showTok (.f bits)
       | none => "none"
     | _ => "bad-op"
+  | ["I", t] => match hexArgs [t] with
+    | some [b] => match parseI64 b with
+      | some v => s!"i{v}"
+      | none => "none"
+    | _ => "bad-op"
+  | ["U64", t] => match hexArgs [t] with
+    | some [b] => showUnsigned (parseUnsigned u64Max b)
+    | _ => "bad-op"
+  | ["U32", t] => match hexArgs [t] with
+    | some [b] => showUnsigned (parseUnsigned u32Max b)
+    | _ => "bad-op"
   | "R2L" :: ts => match (respP (ts.length + 1)).run ts with
     | some (r, []) => showLua (respToLua r)
     | _ => "bad-op"
@@ -162,6 +401,41 @@ def step (line : String) : String :=
       | some b => "$" ++ hexOfBytes b
       | none => "refused"
     | _ => "bad-op"
+  | "SC" :: ts => match (scriptOpP (ts.length + 1)).run ts with
+    | some (o, []) => runScriptOp o
+    | _ => "bad-op"
+  | ["SH", g, i] => match i.toNat? with
+    | some n =>
+      let rows := if g == "R" then shapeRows table else if g == "L" then shapeRows luaTable else []
+      if g != "R" && g != "L" then "bad-op" else
+      match rows[n]? with
+      | some r => showRow r
+      | none => "end"
+    | none => "bad-op"
+  | ["FA", i] => match i.toNat? with
+    | some n => match (familyRows table)[n]? with
+      | some (nm, a) =>
+        -- what an unknown sub-command `ZZZ` (no further argument) answers
+        let probe := match findEntry table nm with
+          | some (.family _ _ _ d) => (showRes (d (s2b "ZZZ") [])).replace " " "_"
+          | _ => "?"
+        s!"name={strOf nm} aerr={hexOfBytes a} probe={probe}"
+      | none => "end"
+    | none => "bad-op"
+  | ["HL", i] => match i.toNat? with
+    | some n => match helperRows[n]? with
+      | some r => showHelper r
+      | none => "end"
+    | none => "bad-op"
+  | ["DF"] =>
+    let r := (showRes (parseCmd [s2b "ZZZ"])).replace " " "_"
+    let l := (showAccept (parseLua [s2b "ZZZ"])).replace " " "_"
+    s!"resp={r} lua={l}"
+  | ["N2I", t] =>
+    if t.length != 16 then "bad-op" else
+    match t.toList.mapM Driver.hexVal with
+    | some ds => s!":{f64ToI64 (ds.foldl (fun a d => a * 16 + d) 0)}"
+    | none => "bad-op"
   | ["TN"] =>
     let names := (table.map Entry.name).map strOf
     ",".intercalate (names.toArray.qsort (· < ·)).toList
